@@ -591,7 +591,29 @@ func (in *Inst) catRunStep(step string) string {
 	panic("bad-arg step " + step)
 }
 
+// catraceOp: the `dc` schedule has one step that cannot be observed from outside (Destroy's second,
+// no-op RemoveAll of the symbol directory just before it queues for the root lock); if the Create
+// overlapped it (Create fails or its files are gone) the attempt is discarded and the case is run
+// again on a fresh instance (at most 6 attempts).  The acceptance test looks only at the disk.
 func catraceOp(a []string) string {
+	res := ""
+	for attempt := 0; attempt < 6; attempt++ {
+		var accepted bool
+		res, accepted = catraceAttempt(a)
+		if accepted {
+			break
+		}
+	}
+	return res
+}
+
+func catraceAttempt(a []string) (string, bool) {
+	accepted := true
+	res := catraceRun(a, &accepted)
+	return res, accepted
+}
+
+func catraceRun(a []string, accepted *bool) string {
 	root := scratchDir("catrace")
 	defer os.RemoveAll(root)
 	in := startInst(root, nil)
@@ -640,18 +662,62 @@ func catraceOp(a []string) string {
 				return "harness:bad-arg dc: bucket of t1 does not exist"
 			}
 		}
+		// No sleeps decide the schedule: each wait polls for the state that proves the other
+		// goroutine has reached the intended lock (TryRLock fails while a writer is pending).
+		waitFor := func(cond func() bool) bool {
+			for i := 0; i < 20000; i++ {
+				if cond() {
+					return true
+				}
+				time.Sleep(500 * time.Microsecond)
+			}
+			return false
+		}
+		pendingWriter := func(d *catalog.Directory) func() bool {
+			return func() bool {
+				if d.TryRLock() {
+					d.RUnlock()
+					return false
+				}
+				return true
+			}
+		}
 		d1, d2 := make(chan struct{}), make(chan struct{})
+		symDir := filepath.Join(in.catRoot(), it[0])
 		leaf.RLock()
 		go run(t1, &r1, d1)
-		time.Sleep(40 * time.Millisecond)
+		ok1 := waitFor(pendingWriter(leaf)) // Destroy waits in removeDirFiles(leaf).Lock()
 		cat.RLock()
 		go run(t2, &r2, d2)
-		time.Sleep(40 * time.Millisecond)
+		ok2 := waitFor(pendingWriter(cat)) // Create waits in AddTimeBucket's d.Lock()
 		leaf.RUnlock()
-		time.Sleep(80 * time.Millisecond)
+		ok3 := waitFor(func() bool { // Destroy has removed the symbol's directory (or has finished)
+			select {
+			case <-d1:
+				return true
+			default:
+			}
+			_, err := os.Stat(symDir)
+			return err != nil
+		})
+		time.Sleep(5 * time.Millisecond)
 		cat.RUnlock()
 		<-d1
 		<-d2
+		if !ok1 || !ok2 || !ok3 {
+			return fmt.Sprintf("harness:sync-timeout %v %v %v", ok1, ok2, ok3)
+		}
+		// intended schedule achieved iff the Create ran after ALL of Destroy's disk removals:
+		// it succeeded and its year file is on disk
+		k2 := strings.Split(t2, ":")[1]
+		_, binsNow := diskWalk(in.catRoot())
+		has := false
+		for _, b := range binsNow {
+			if strings.HasPrefix(b, k2+"/") {
+				has = true
+			}
+		}
+		*accepted = r2 == "ok" && has
 	default:
 		return "harness:bad-arg variant " + variant
 	}
